@@ -444,7 +444,21 @@ def run(ctx):
 
         # sizes 2..max_order: a mask `(x >= 2) & (x <= max_order)` (any spelling with the same truth table)
         masks = [n for n in ast.walk(s.fi.node) if isinstance(n, ast.BinOp) and isinstance(n.op, ast.BitAnd) and all(isinstance(x, ast.Compare) for x in (n.left, n.right)) and "max_order" in {y.id for y in ast.walk(n) if isinstance(y, ast.Name)}]
-        if not masks:
+        # the same restriction spelled as a range: range(2, max_order + 1) [the end of a range is exclusive]
+        ranges = [n for n in ast.walk(s.fi.node) if isinstance(n, ast.Call) and isinstance(n.func, ast.Name) and n.func.id == "range" and any(isinstance(y, ast.Name) and y.id == "max_order" for a_ in n.args for y in ast.walk(a_))]
+        for rg in ranges:
+            lo = rg.args[0] if len(rg.args) >= 2 else ast.Constant(0)
+            hi = rg.args[1] if len(rg.args) >= 2 else rg.args[0]
+            lo_ok = isinstance(lo, ast.Constant) and lo.value == 2
+            hi_t = norm(s.inline(hi))
+            hi_ok = hi_t in ("max_order + 1", "1 + max_order")
+            hi_bad = hi_t in ("max_order", "max_order - 1", "max_order + 2")
+            lo_bad = isinstance(lo, ast.Constant) and lo.value != 2
+            st_ = "ok" if lo_ok and hi_ok else ("violation" if hi_bad or lo_bad else "unknown")
+            res.add("V-MULT", fs, norm(rg), "size-range", st_, "" if st_ == "ok" else f"the tested sizes are `{norm(rg)}`, not exactly 2..max_order (the end of a range is exclusive: hyperedges of size max_order are never tested or reported)", loc(s.fi, rg))
+        if not masks and ranges:
+            pass
+        elif not masks:
             res.unknown("V-MULT", fs, "orders[(orders >= 2) & (orders <= max_order)]", "size-range", "the size mask was not recognised", loc(s.fi, s.fi.node))
         for m in masks:
             names = sorted({y.id for y in ast.walk(m) if isinstance(y, ast.Name)} - {"max_order"})
